@@ -441,6 +441,30 @@ fn positional(p: &Params, di: usize, acc: &mut Acc) -> Option<String> {
     if it.next().is_some() {
         return Some("next() yields an event after it returned None".into());
     }
+    // consuming adaptors after k events were taken with next(), including on the exhausted iterator
+    for k in 0..=all.len() + 1 {
+        acc.evals += 2;
+        acc.transitions += 2;
+        let mut b = dirty[di].clone();
+        let mut it = mk(p, &mut b);
+        for _ in 0..k {
+            let _ = it.next();
+        }
+        let want_last = if k < all.len() { all.last() } else { None };
+        let got_last = it.last();
+        if bits(got_last.as_slice()) != bits(want_last.map(std::slice::from_ref).unwrap_or(&[])) {
+            return Some(format!("last() after {k} of {} events were taken with next() = {got_last:?}, expected {want_last:?}", all.len()));
+        }
+        let mut b = dirty[di].clone();
+        let mut it = mk(p, &mut b);
+        for _ in 0..k {
+            let _ = it.next();
+        }
+        let n = it.count();
+        if n != all.len().saturating_sub(k) {
+            return Some(format!("count() after {k} of {} events = {n}", all.len()));
+        }
+    }
     let mut b = dirty[di].clone();
     if mk(p, &mut b).count() != all.len() {
         return Some("count() differs from the number of events next() yields".into());
